@@ -1,5 +1,6 @@
 CONSTANTS
   NSlots = 12
+  Glob = "calls"
   Abs = FALSE
   Lean = FALSE
   Vocab = "single"
